@@ -387,7 +387,7 @@ impl Check for C14 {
     }
     fn run(case: &FaultCase, ctx: &Ctx) -> Result<CaseInfo, Violation> {
         match case.hist.cfg.hasher {
-            HasherKind::Blake3 => run_case::<B3>(case, ctx),
+            HasherKind::Blake3 | HasherKind::TailLabel => run_case::<B3>(case, ctx),
             HasherKind::Sha2 => run_case::<S2>(case, ctx),
         }
     }
